@@ -60,7 +60,7 @@ COND_MAX = 1e3
 def plan(tier):
     if tier == 'thorough':
         return dict(shards=16, cases=5000, timeout=1800, budget_s=600)
-    return dict(shards=8, cases=400, timeout=600, budget_s=70)
+    return dict(shards=8, cases=330, timeout=600, budget_s=70)
 
 
 def selftest():
@@ -493,8 +493,8 @@ def _run_case(case):
     ora = _oracle(ap, data, error, mask, g['sum_method'], g['subpixels'], lbk, g['clip'])
     if g['clip'] is not None and min(min(o['margin'], o['margin_s']) for o in ora) < 1e-9:
         case.skip('sigma-clip bound within 1e-9 of a pixel value (tie decided by rounding)')
-    if any(bool((o['Ws'] < -1e-12).any()) for o in ora):
-        case.skip('sum-method mask holds a negative weight beyond rounding (mask defect, C01 matter)')
+    if any(bool((o['Ws'] < -1e-12).any() or np.isnan(o['Ws']).any() or np.isnan(o['Wc']).any()) for o in ora):
+        case.skip('aperture mask holds a negative (beyond rounding) or NaN weight (mask defect, C01 matter)')
     case.nontrivial = any(len(o['v']) >= 3 and np.ptp(o['v']) > 0 for o in ora)
     case.note('positions', npos)
     case.note('positions_overhang_left_or_bottom', sum(o['overlap'] and (o['overhang_x'] or o['overhang_y']) for o in ora))
@@ -878,7 +878,13 @@ def _rel_photometry(case, ap, data, error, mask, ora, obs, g, lbk, base):
             with np.errstate(all='ignore'):
                 atol_var = 1e-13 * float(np.sum(np.asarray(error, float)[o['Ss']] ** 2))
             got = float(obs['sum_err'][0][k])
-            if math.isfinite(e) and math.isfinite(atol_var) and e * e <= 10 * atol_var:
+            with np.errstate(all='ignore'):
+                resid_bad = bool((~np.isfinite(np.asarray(error, float)) & o['Ss'] & (np.abs(o['Ws']) <= 1e-12)).any())
+            if resid_bad:
+                # a NaN/inf error value under a rounding-residue weight (|w| <= 1e-12, either sign): ApertureStats
+                # keeps that pixel (w != 0), aperture_photometry keeps it only if the residue happens to be positive
+                case.note('sum_err_relation_skipped_nonfinite_error_under_residue_weight')
+            elif math.isfinite(e) and math.isfinite(atol_var) and e * e <= 10 * atol_var:
                 case.note('sum_err_relation_skipped_residue_only')
             elif math.isfinite(e) and math.isfinite(got):
                 d = abs(got * got - e * e)
